@@ -330,4 +330,88 @@ def k2(ctx, kr):
     kr.exhaustive = True
     kr.outside = ['digit strings longer than one digit past the u128 limit; separators and arbitrary digits in long digit strings']
 
-KERNELS = [k3a, k2, k3b, k4]
+# ---------------------------------------------------------------------------------------------- K5 sign of integer literals through the grammar
+SIGNED_CTX = {
+    'initial_value': ('PROGRAM p\nVAR\n  x : INT := ', ';\nEND_VAR\nEND_PROGRAM\n'),
+    'subrange_bound': ('TYPE\n  r : INT(', '..99);\nEND_TYPE\n'),
+    'array_bound': ('TYPE\n  ar : ARRAY[', '..99] OF INT;\nEND_TYPE\n'),
+    'case_selector': ('FUNCTION_BLOCK fb\nVAR\n  x : INT;\nEND_VAR\n  CASE x OF\n    ', ':\n      x := 1;\n  END_CASE;\nEND_FUNCTION_BLOCK\n'),
+}
+
+def _k5_job(job):
+    cname, nd = job
+    from . import C10 as K10
+    ctx = _CTX; part = Part()
+    pre, post = SIGNED_CTX[cname]
+    P = ctx.program()
+    k_parse = P.find_fn('ironplc-parser', 'parse_program')
+    k_opt = [k for k in P.items if k[0] == 'ironplc-parser' and re.search(r'ParseOptions as (std::default::)?Default>::default|options::<impl at [^>]*>::default', k[1])]
+    holder = {}; st = {}
+    M = Machine(P, stubs=K10.dyn_lexer_stubs(ctx, holder), max_steps=400_000_000)
+    def entry(M):
+        sg = M.fresh_bv('sign', 8); M.assume(z3.Or(sg == 43, sg == 45, sg == 32)); st['sign'] = sg
+        ds = []
+        for i in range(nd):
+            d = M.fresh_bv('d%d' % i, 8); M.assume(z3.And(z3.UGE(d, 48), z3.ULE(d, 57))); ds.append(d)
+        st['ds'] = ds
+        text = list(pre.encode()) + [sg] + ds + list(post.encode())
+        fid = Ref(Cell(Agg('FileId', [Str('f.st')])))
+        opts = Ref(Cell(M.call_fn(k_opt[0], []) if k_opt else Agg('ParseOptions', [False])))
+        r = M.call_fn(k_parse, [Ref(Cell(Str(text))), fid, opts])
+        if r.disc != 0: return None
+        nodes = K10.find_nodes(r.f[0], 'SignedInteger')
+        return nodes[0] if nodes else 'no-signed-integer'
+    def on_path(M, pr):
+        part.paths += 1
+        if pr.inconclusive: part.inconc('%s: %s' % (cname, pr.inconclusive)); return
+        part.nontrivial += 1
+        s = z3.Solver(); s.add(*pr.pc)
+        sg, ds = st['sign'], st['ds']
+        val = z3.BitVecVal(0, 128)
+        for d in ds: val = val * 10 + z3.ZeroExt(120, d - 48)
+        def lit(m): return (chr(m.eval(sg, True).as_long()) + ''.join(chr(m.eval(d, True).as_long()) for d in ds)).strip()
+        def report(role, what, cond):
+            s.push(); s.add(cond); part.queries += 1
+            if s.check() == z3.sat:
+                L = lit(s.model()); src = pre + L + post
+                part.add(role, '%s `%s`: %s' % (cname.replace('_', ' '), L, what), {'literal': L, 'source': src}, ('signed_literal', (src, L)))
+            s.pop()
+        if pr.panic: report('C09/K5/%s/panic' % cname, 'the parser panics: ' + pr.panic.msg[:50], z3.BoolVal(True)); return
+        node = pr.result
+        if node is None: report('C09/K5/%s/rejected' % cname, 'a signed integer literal is rejected', z3.BoolVal(True)); return
+        if node == 'no-signed-integer': part.inconc('%s: no SignedInteger node in the library' % cname); return
+        neg = node.f[1]; mag = node.f[0].f[1]
+        report('C09/K5/%s/sign-altered' % cname, 'is read with the opposite sign', tobool(neg) != (sg == 45))
+        report('C09/K5/%s/value-altered' % cname, 'is read with another magnitude', tobv(mag, 128) != val)
+        if len(part.validate) < 1 and s.check() == z3.sat:
+            L = lit(s.model()); part.validate.append(('signed_literal', (pre + L + post, L)))
+        if len(part.samples) < 1: part.samples.append({'context': cname, 'digits': nd})
+    M.explore(entry, on_path)
+    part.queries += M.stats['smt']; part.encoded = set(M.encoded); part.models = set(M.models_used)
+    return part
+
+@replay_factory('signed_literal')
+def _replay_signed_literal(src, L):
+    def rp(ctx):
+        r = ctx.replay({'cmd': 'parse', 'source': src})
+        if 'panic' in r: return True, r
+        if not r.get('ok'): return True, {'literal': L, 'rejected': str(r.get('diag'))[:160]}
+        m = re.search(r'SignedInteger \{ value: Integer \{ span: [^}]*\}, value: (\d+) \}, is_neg: (true|false)', r['debug'])
+        if not m: return None, {'note': 'no SignedInteger in the Debug output'}
+        got = (int(m.group(1)), m.group(2) == 'true'); want = (int(L.lstrip('+-')), L.startswith('-'))
+        return got != want, {'literal': L, 'parsed (magnitude, negative)': got, 'written': want}
+    return rp
+
+@kernel('K5 parser.signed_integer_literals')
+def k5(ctx, kr):
+    global _CTX
+    _CTX = ctx
+    kr.bounds = 'an integer literal with a symbolic sign character (+, - or none) and 1..2 symbolic digits as initial value, subrange bound, array bound and CASE selector, through parse_program (lexer lifted on the symbolic text)'
+    jobs = [(c, nd) for c in SIGNED_CTX for nd in ((2,) if ctx.tier == 'quick' else (1, 2, 3))]
+    for part in par_map(_k5_job, jobs): merge_part(kr, part)
+    P = ctx.program()
+    kr.functions = fn_paths(P, getattr(kr, '_enc', set()))[:100] + ['ironplc-parser::<TokenType as Logos>::lex (lifted)']
+    kr.exhaustive = True
+    kr.outside = ['signs in expressions (unary minus: C01-K1), real literals']
+
+KERNELS = [k3a, k2, k3b, k4, k5]
